@@ -6,6 +6,26 @@ ALL = ["C%02d" % i for i in range(1, 21)]
 
 # property -> (technique, level text, level note, design ref)
 CHECKS = {
+ "C03": ("exhaustive enumeration of inputs x configurations on the real iterator; per-item reference decode of the input at the reported offset",
+         "Every byte string over an 18-symbol role-colliding alphabet up to length 5 (thorough 6), every document of a bounded tree x encoding space and every single mutation of it, under 8 tolerance subsets x buffered sets x 2 capacities: each Ok item is compared with an independent RefCodec decode of the input at its reported offset (id, value, End/Full offsets, contiguity), including the children of Full items.",
+         "Trusted: RefCodec header/payload decoders. A 0x00 id byte is mirrored as id 0 when unknown ids are tolerated (documented tolerant behaviour). Payload contents outside the representative classes are assumed data-independent.",
+         "DESIGN.md section 4, C03"),
+ "C04": ("exhaustive enumeration of read schedules (all 2^(len-1) compositions for small inputs), capacities and EOF-pause subsets against the slice parse (differential oracle)",
+         "For every input up to 11 (thorough 13) bytes from Σ*, the document corpus, its truncations and corruptions: ALL compositions of the input into read() results x 14 capacities (0..len+1, default); longer inputs and two > 64 KiB documents with <= 2 short reads; with end-of-stream closing off, Ok(0) pauses at every subset of tag boundaries. Items, offsets and the first error must equal the slice parse.",
+         "Trusted: the scripted Read implementations (30 lines). Sources that violate the Read contract are out of scope.",
+         "DESIGN.md section 4, C04"),
+ "C06": ("exhaustive enumeration of byte streams on the strict iterator; replay of the emitted items through an independent nesting/path/extent checker",
+         "Every Σ string up to length 6 (thorough 7), every document of the tree x encoding space (known/unknown-size mixes, five master levels) and every single mutation incl. every mid-document suffix: the Ok items are replayed through NestingChecker (End matching incl. implied ancestors, reference path matcher, extents inside known-size ancestors via RefCodec, known-size End neither early nor late, all closed at clean end).",
+         "Trusted: RefSpec table of V, ref_path_match (20 lines), RefCodec. Only specification V (derived by the real macro) is exercised here; other specifications are covered by C11.",
+         "DESIGN.md section 4, C06"),
+ "C07": ("exhaustive enumeration of trees x all 2^m unknown-size subsets, encoded by a reference encoder and by the real writer, parsed by the real strict iterator against the ground-truth flattening",
+         "Every forest over V up to 5 (thorough 6) elements plus deep spines, every subset of masters encoded with unknown size (1- and 8-byte markers), through RefEncoder and through TagWriter::write_advanced(unknown): the strict parse must equal flatten(tree) with the reference offsets.",
+         "Trusted: RefEncoder/flatten (tree -> bytes, layout, items). Documents with a global element directly after an unknown-size master are excluded as inherently ambiguous (the statement excludes them).",
+         "DESIGN.md section 4, C07"),
+ "C12": ("exhaustive enumeration of documents x every cut position x capacities x short-read schedules against expectations computed from the reference layout",
+         "Every document of the tree x encoding space (one deviation: payload class, size width, non-minimal fields; known and unknown-size masters), every cut position 0..=len, capacities {default,16,17,64}, schedules with <= 1 short read: items must be exactly those complete in the prefix, then Ends+None on a tag boundary or UnexpectedEOF with exact tag_start / id / size / partial_data.",
+         "Trusted: RefEncoder layout and the completion-position rule of DESIGN C12. partial_data None is accepted when zero payload bytes were available.",
+         "DESIGN.md section 4, C12"),
  "C15": ("exhaustive enumeration of a bounded input lattice of the real codec functions against a u128 reference codec",
          "Every u64 below 2^22 (thorough 2^28) and every i64 of magnitude below 2^21 (2^27), plus the +-2 lattice around every power of two up to 2^64, through every encoder width; every byte slice of length 0-3 and a first-byte-free family of lengths 4-9 through both decoders. Complete enumeration of that space, each call compared with RefCodec; no sampling.",
          "Trusted: RefCodec (u128 arithmetic, ~60 lines). Values between lattice points above the exhaustive range are not executed; non-first VINT bytes are assumed data-independent.",
